@@ -445,6 +445,75 @@ m("num-incrby-int32", ["C01"], "NUM", "handleIncrBy|ParseInt", "INCRBY parses th
 m("rs-late-state-copy", ["C07"], "RS", "copies-state-synchronously", "FSM.Snapshot no longer copies the state itself",
   ('internal/raft/fsm.go', 'data:                  fsm.options.GetState(),', 'data:                  nil,'))
 
+m("u1-nopass-before-enabled", ["C11"], "U1", "update-only-if-enabled", "password-less fast path moved before the Enabled check",
+  (ACL, '''	// If user is not enabled, return error
+	if !user.Enabled {
+		return fmt.Errorf("user %s is disabled", user.Username)
+	}
+
+	// If user is set to NoPassword, then immediately authenticate connection without considering the password
+	if user.NoPassword {
+		acl.Connections[conn] = Connection{
+			Authenticated: true,
+			User:          user,
+		}
+		return nil
+	}
+''', '''	// If user is set to NoPassword, then immediately authenticate connection without considering the password
+	if user.NoPassword {
+		acl.Connections[conn] = Connection{
+			Authenticated: true,
+			User:          user,
+		}
+		return nil
+	}
+
+	// If user is not enabled, return error
+	if !user.Enabled {
+		return fmt.Errorf("user %s is disabled", user.Username)
+	}
+'''))
+m("m2-subtract-only-live-entries", ["C19"], "M2", "replace-subtracts-on-every-path", "setValues subtracts the replaced entry only when it has not expired",
+  (K, '''			if !isExpired(old, server.clock.Now()) {
+				// Keep the deadline of a live key; a deadline that has already passed is never inherited.
+				expireAt = old.ExpireAt
+			}
+			// The entry is being replaced: deduct what was accounted for the old one.
+			if oldMem, err := old.GetMem(); err == nil {
+				server.memUsed -= oldMem
+				server.memUsed -= int64(unsafe.Sizeof(key))
+				server.memUsed -= int64(len(key))
+			}
+''', '''			if !isExpired(old, server.clock.Now()) {
+				// Keep the deadline of a live key; a deadline that has already passed is never inherited.
+				expireAt = old.ExpireAt
+				if oldMem, err := old.GetMem(); err == nil {
+					server.memUsed -= oldMem
+					server.memUsed -= int64(unsafe.Sizeof(key))
+					server.memUsed -= int64(len(key))
+				}
+			}
+'''))
+m("n3-replay-context-overwritten", ["C02", "C20"], "N3", "rebinds-database-only-when-not-replaying", "dispatcher rebuilds the context from the connection tables during replay again",
+  (D, '''	} else if !replay {
+		// The call is triggered by a TCP connection.''', '''	} else {
+		// The call is triggered by a TCP connection.'''))
+m("oa-log-not-append", ["C02", "C09"], "OA", "open-flags:log.aof", "AOF log opened without O_APPEND",
+  ('internal/aof/log/store.go', 'os.O_RDWR|os.O_CREATE|os.O_APPEND', 'os.O_RDWR|os.O_CREATE'))
+m("t7-rewriteaof-write-classified", ["C05"], "T7", "entry:rewriteaof", "REWRITEAOF classified as a write command",
+  ('internal/modules/admin/commands.go', '''			Command:     "rewriteaof",
+			Module:      constants.AdminModule,
+			Categories:  []string{constants.AdminCategory, constants.SlowCategory, constants.DangerousCategory},''', '''			Command:     "rewriteaof",
+			Module:      constants.AdminModule,
+			Categories:  []string{constants.AdminCategory, constants.WriteCategory, constants.SlowCategory, constants.DangerousCategory},'''))
+m("q-dedupe-skips-check", ["C06"], "Q", "every-element-tested", "write-key loop skips keys already seen as read keys",
+  (ACL, '''		for _, key := range writeKeys {
+			if !slices.ContainsFunc(connection.User.IncludedWriteKeys''', '''		for _, key := range writeKeys {
+			if slices.Contains(readKeys, key) {
+				continue
+			}
+			if !slices.ContainsFunc(connection.User.IncludedWriteKeys'''))
+
 out = os.path.join(os.path.dirname(os.path.dirname(os.path.abspath(__file__))), 'mutants', 'mutants.json')
 os.makedirs(os.path.dirname(out), exist_ok=True)
 open(out, 'w').write(json.dumps(M, indent=1) + '\n')
